@@ -47,6 +47,10 @@ def run(ctx, rep):
     if n < 2:
         raise AnalysisError("evaluation call sites with a penalty argument not found")
     r205(ctx, rep, E, cfg, cbs)
+    rep.rule("R20.6", "the point shown to the callback lies within the user's bounds: build_x ends with the projection onto the original bounds")
+    from . import c01
+    from ..report import Renamed
+    c01.r15(ctx, Renamed(rep, to="R20.6"))
 
 
 def _cb_is_set_test(ctx, E, cfg):
